@@ -13,7 +13,7 @@
    (the hash), `nlen` (name length) and `H` (header length) are arbitrary. *)
 From Coq Require Import List NArith ZArith Bool.
 From Tele Require Import Gen.Consts Model.FileConc Proofs.FileConcBase Proofs.FileConcInv
-  Proofs.FileConcThms Proofs.FileConcWitness Proofs.FileConcInv2 Proofs.FileConcProgress.
+  Proofs.FileConcThms Proofs.FileConcWitness Proofs.FileConcInv2 Proofs.FileConcProgress Proofs.FileConcOracle.
 Import ListNotations.
 Open Scope N_scope.
 
@@ -161,6 +161,18 @@ Theorem C04_empty_name_refuted :
   option_map r_name (find_rec 2176 (f_recs (fst st))) = Some 7 /\ e_nlen 7 = 0.
 Proof. exact e_run. Qed.
 Print Assumptions C04_empty_name_refuted.
+
+(* the executable oracles that the runner evaluates on the decoded REAL file
+   bytes (wf_obsb: well-formedness; uniq_obsb: one record per name; both in
+   Model/FileConc.v) hold of the view of every reachable model file: the
+   oracle asks of the implementation no more than the theorems establish *)
+Theorem C04_oracle_accepts_reachable : forall bucket nlen H,
+  (forall nm, 1 <= nlen nm) ->
+  forall st0 sched, init_ok bucket nlen H st0 ->
+  let f := fst (run bucket nlen H sched st0) in
+  wf_obsb bucket nlen H false (obs_of f) = true /\ uniq_obsb (obs_of f) = true.
+Proof. exact oracle_accepts_reachable. Qed.
+Print Assumptions C04_oracle_accepts_reachable.
 
 (* non-vacuity: the hypotheses are satisfiable and the model computes *)
 Example C04_init_nonvacuous : init_ok w_bucket w_nlen w_H w_st0.
